@@ -4,7 +4,7 @@ import random
 import struct
 import sys
 
-from . import dsl, verify
+from . import dsl, verify, samples
 from .dsl import *
 
 
@@ -52,7 +52,26 @@ def _c7(b: Bytes):
     ensures(0 <= result and result < 256)    # IndexError on empty input is not allowed
 
 
-EXPECT = {'clamp_ok': 'proved', 'clamp_bad': 'refuted', 'sum_ok': 'proved', 'sum_bad': 'refuted',
+@contract('pyvc.samples:twice', name='counter_ok')
+def _c8(n: Int):
+    # the invariant speaks about the iteration count only; i == _k and _k <= n are facts by construction of the loop
+    requires(n >= 0)
+    invariant(0, acc == 2 * _k)
+    ensures(result == 2 * n)
+
+
+@contract('pyvc.samples:Frozen.__setattr__', name='slots_ok')
+def _c9(self: Obj(samples.Frozen), name: Str, value: Any):
+    raises(AttributeError, when=True)
+
+
+@contract('pyvc.samples:FrozenLeaky.__setattr__', name='slots_bad')
+def _c10(self: Obj(samples.FrozenLeaky), name: Str, value: Any):
+    raises(AttributeError, when=True)          # false for name == 'a': a symbolic name must be tried against every slot
+
+
+EXPECT = {'counter_ok': 'proved', 'slots_ok': 'proved', 'slots_bad': 'refuted',
+          'clamp_ok': 'proved', 'clamp_bad': 'refuted', 'sum_ok': 'proved', 'sum_bad': 'refuted',
           'pack_ok': 'proved', 'pack_bad': 'refuted', 'index_bad': 'refuted'}
 
 
